@@ -336,6 +336,71 @@ func buildWalk(p *Program, tier string) ([]*Unit, []UnitError) {
 		}
 		units = append(units, u)
 	}
+	// Inspect: f decides whether the subtree is walked. inspector.Visit returns itself exactly when
+	// f(node) is true and nil otherwise (so Walk skips exactly the subtree f declines and sends the
+	// closing nil to the same f); Inspect is one Walk of the node with that visitor.
+	if wantUnit("Inspect") {
+		vopts := &UnitOpts{Trace: true}
+		vopts.AtExit = func(ex *Exec, frm *frame, g string, st *State, res []Val) {
+			n := 0
+			for i := range ex.trace {
+				ev := &ex.trace[i]
+				if ev.Kind != "call" || ev.Depth != 0 || ev.Res == nil || !strings.Contains(ev.Callee, "callback.f") {
+					continue
+				}
+				n++
+				fv := frm.params["f"]
+				self := mkI(intLit(int64(ex.u.typeID(frm.fn.Signature.Recv().Type()))), fv.T)
+				arg := "true"
+				if len(ev.Args) == 1 && ev.Args[0].T != "" && frm.params["node"].T != "" {
+					arg = eq(ev.Args[0].T, frm.params["node"].T)
+				}
+				goal := and(arg, implies(ev.Res.T, eq(res[0].T, self)), implies(not(ev.Res.T), eq(res[0].T, nilIface)))
+				ex.oblige("inspector.Visit#visit:continues_exactly_when_f_accepts", "schema", and(g, ev.Guard), goal,
+					"f is called with the node; the result is the same inspector when f(node) is true and nil when it is false", "")
+			}
+			o := ex.oblige("inspector.Visit#visit:f_called_once", "frame", "true", map[bool]string{true: "true", false: "false"}[n == 1], fmt.Sprintf("%d call(s) of f", n), "")
+			o.Guard = "true"
+		}
+		if u, err := p.verifyFunc(pkgDst+".(inspector).Visit", vopts); err != nil {
+			errs = append(errs, UnitError{"inspector.Visit", err.Error()})
+		} else {
+			units = append(units, u)
+		}
+		// "node must not be nil" (documented precondition of Inspect)
+		iopts := &UnitOpts{Trace: true, ExtraRequires: []string{"node != nil"}}
+		iopts.AtExit = func(ex *Exec, frm *frame, g string, st *State, res []Val) {
+			n, ok := 0, false
+			for i := range ex.trace {
+				ev := &ex.trace[i]
+				if ev.Kind != "call" || ev.Depth != 0 || ev.Callee != dstWalk {
+					continue
+				}
+				n++
+				if len(ev.Args) == 2 {
+					want := mkI(intLit(int64(ex.u.typeID(p.fns[pkgDst+".(inspector).Visit"].Signature.Recv().Type()))), frm.params["f"].T)
+					goal := and(eq(ev.Args[1].T, frm.params["node"].T), eq(ev.Args[0].T, want))
+					ex.oblige("Inspect#visit:walks_the_node_with_f_as_visitor", "schema", and(g, ev.Guard), goal, "Walk(inspector(f), node)", "")
+					ok = true
+				}
+			}
+			o := ex.oblige("Inspect#visit:one_walk", "frame", "true", map[bool]string{true: "true", false: "false"}[n == 1 && ok], fmt.Sprintf("%d call(s) of Walk", n), "")
+			o.Guard = "true"
+			direct := 0
+			for i := range ex.trace {
+				if ev := &ex.trace[i]; ev.Kind == "call" && ev.Depth == 0 && strings.Contains(ev.Callee, "callback.f") {
+					direct++
+				}
+			}
+			o2 := ex.oblige("Inspect#visit:f_called_only_by_the_walk", "frame", "true", map[bool]string{true: "true", false: "false"}[direct == 0], fmt.Sprintf("%d direct call(s) of f in Inspect", direct), "")
+			o2.Guard = "true"
+		}
+		if u, err := p.verifyFunc(pkgDst+".Inspect", iopts); err != nil {
+			errs = append(errs, UnitError{"Inspect", err.Error()})
+		} else {
+			units = append(units, u)
+		}
+	}
 	return units, errs
 }
 
